@@ -915,7 +915,9 @@ class Phonopy:
 
     @nac_params.setter
     def nac_params(self, nac_params):
-        self._nac_params = nac_params
+        # Keep an own copy: later changes of the caller's dict or arrays must
+        # not leak into this instance at the next rebuild of dynamical matrix.
+        self._nac_params = copy.deepcopy(nac_params)
         if self._force_constants is not None:
             self._set_dynamical_matrix()
 
